@@ -485,6 +485,11 @@ impl DiskCache {
         // to match is the chunk lengths, i.e. difference in the offsets.
         let idx_start = (range.start - cache_item.range.start) as usize;
         let idx_end = (range.end - cache_item.range.start + 1) as usize;
+        if header.chunk_byte_indices.len() < idx_end {
+            // the stored header does not describe the range the item claims to hold
+            self.remove_item(key, cache_item)?;
+            return Ok(false);
+        }
         for i in idx_start..idx_end - 1 {
             let stored_diff = header.chunk_byte_indices[i + 1] - header.chunk_byte_indices[i];
             let given_diff = chunk_byte_indices[i + 1 - idx_start] - chunk_byte_indices[i - idx_start];
